@@ -380,6 +380,26 @@ pub fn alphabet(name: &str) -> Vec<Op> {
                 Op::Union(w(0, h(1)), f(0, 1)),
             ]
         }
+        "CASE" => {
+            // an operator with two SIBLING binders `case(s, x. a, y. b)`: the earlier bound slot redundant in one body and
+            // absent in the other, symmetric and one-slot children under both binders, the same bound name in both binders,
+            // a union with a single-binder term
+            let case = |sc: T, x: Name, a: T, y: Name, b2: T| T { op: "case", args: vec![Arg::Child(Box::new(sc)), Arg::Bind(vec![x], Box::new(a)), Arg::Bind(vec![y], Box::new(b2))] };
+            vec![
+                Op::Add(case(cc(), 100, h(100), 101, var(101))),
+                Op::Add(case(cc(), 100, cc(), 101, var(101))),
+                Op::Union(h(0), cc()),
+                Op::Add(case(var(0), 100, f(100, 0), 101, f(0, 101))),
+                Op::Add(case(var(0), 100, f(0, 100), 101, f(101, 0))),
+                Op::Union(f(0, 1), f(1, 0)),
+                Op::Add(case(var(0), 100, h(100), 101, h(0))),
+                Op::Add(case(var(0), 100, h(0), 101, h(101))),
+                Op::Union(h(0), var(0)),
+                Op::Union(case(cc(), 100, h(100), 101, var(101)), lam(100, var(100))),
+                Op::Add(case(cc(), 100, h(100), 100, var(100))),
+                Op::Union(f(0, 1), f(0, 2)),
+            ]
+        }
         "CHAIN" => {
             // unions among four one-slot leaves A = h x, B = var x, C = f x x, D = t x x x whose parents u(.) were inserted by
             // `chain_prefix()` (A, B have that one parent, C two, D four): uniting A=B, B=C, C=D in this order absorbs each
